@@ -23,7 +23,8 @@ Definition verdict_of (r : res (heap * val)) : verdict :=
   | Err ENotFoundSym | Err ENotFoundPkg | Err ENotFoundHash => NotFound
   | Err ENotRec | Err ENotPkg => NotRecord
   | Err ENotFun => NotCallable
-  | Err EInternal | Err ECrash | Err EFuel => Malformed
+  | Err EInternal | Err ECrash => Malformed
+  | Err EFuel => Unbounded
   end.
 
 Definition names_ok (p : list name) : Prop := Forall (fun n => n <> []) p.
@@ -501,50 +502,61 @@ Theorem closure_is_package_stack : forall h stack self params body,
   build_val is_upper h stack self (DFun params body) = Ok (h, VFun self params body stack).
 Proof. reflexivity. Qed.
 
-(* full access: a member of the package's own scope, whatever its case, is read by a plain symbol
-   from a function whose captured stack starts with that scope (unless a parameter shadows it) *)
-Theorem inside_full_access : forall h params args own outer m n v,
-  scope_map h own = Some m -> assoc m n = Some v ->
-  assoc (zip_params params args) n = None ->
-  run_body is_upper h params (BGet n) (own :: outer) args = Ok (h, v).
+Lemma run_body_simple_eq : forall fuel h ps b cl args,
+  (forall p c, b <> BDotCall p c) ->
+  run_body is_upper fuel h ps b cl args = run_body_simple is_upper h ps b cl args.
 Proof.
-  intros h params args own outer m n v Hm Ha Hp.
-  unfold run_body, run_body_simple, lexical_lookup. rewrite Hp. simpl. rewrite Hm, Ha. reflexivity.
+  intros fuel h ps b cl args H.
+  destruct fuel; destruct b; try reflexivity; exfalso; eapply H; reflexivity.
 Qed.
 
-Theorem inside_full_access_set : forall h params a args own outer m n old,
+(* full access: a member of the package's own scope, whatever its case, is read by a plain symbol
+   from a function whose captured stack starts with that scope (unless a parameter shadows it) *)
+Theorem inside_full_access : forall fuel h params args own outer m n v,
+  scope_map h own = Some m -> assoc m n = Some v ->
+  assoc (zip_params params args) n = None ->
+  run_body is_upper fuel h params (BGet n) (own :: outer) args = Ok (h, v).
+Proof.
+  intros fuel h params args own outer m n v Hm Ha Hp.
+  rewrite run_body_simple_eq by discriminate.
+  unfold run_body_simple, lexical_lookup. rewrite Hp. simpl. rewrite Hm, Ha. reflexivity.
+Qed.
+
+Theorem inside_full_access_set : forall fuel h params a args own outer m n old,
   scope_map h own = Some m -> assoc m n = Some old ->
   assoc (zip_params params (a :: args)) n = None ->
-  run_body is_upper h params (BSet n) (own :: outer) (a :: args) = Ok (scope_set h own n a, a).
+  run_body is_upper fuel h params (BSet n) (own :: outer) (a :: args) = Ok (scope_set h own n a, a).
 Proof.
-  intros h params a args own outer m n old Hm Ha Hp.
-  unfold run_body, run_body_simple, lexical_set, lexical_lookup. rewrite Hp. simpl. rewrite Hm, Ha. reflexivity.
+  intros fuel h params a args own outer m n old Hm Ha Hp.
+  rewrite run_body_simple_eq by discriminate.
+  unfold run_body_simple, lexical_set, lexical_lookup. rewrite Hp. simpl. rewrite Hm, Ha. reflexivity.
 Qed.
 
 (* members of enclosing packages are reached the same way (lexical chain), first binding wins *)
-Theorem inside_sees_enclosing : forall h params args clos n v s,
+Theorem inside_sees_enclosing : forall fuel h params args clos n v s,
   assoc (zip_params params args) n = None ->
   stack_lookup h clos n = Some (v, s) ->
-  run_body is_upper h params (BGet n) clos args = Ok (h, v).
+  run_body is_upper fuel h params (BGet n) clos args = Ok (h, v).
 Proof.
-  intros h params args clos n v s Hp Hl.
-  unfold run_body, run_body_simple, lexical_lookup. rewrite Hp, Hl. reflexivity.
+  intros fuel h params args clos n v s Hp Hl.
+  rewrite run_body_simple_eq by discriminate.
+  unfold run_body_simple, lexical_lookup. rewrite Hp, Hl. reflexivity.
 Qed.
 
 (* ---------- dot paths written inside a package: lexical head, never the caller's bindings ---------- *)
 (* a dot path read inside a function body is the specification's verdict in the function's own
    lexical context (parameters, then captured scopes) *)
-Theorem inside_dot_read_is_visible : forall h params clos args p,
+Theorem inside_dot_read_is_visible : forall fuel h params clos args p,
   names_ok p ->
-  verdict_of (run_body is_upper h params (BDot p) clos args)
+  verdict_of (run_body is_upper fuel h params (BDot p) clos args)
     = PkgSpec.spec_path is_upper h (zip_params params args) clos p None.
-Proof. intros. unfold run_body, run_body_simple. apply dot_path_is_visible; assumption. Qed.
+Proof. intros. rewrite run_body_simple_eq by discriminate. unfold run_body_simple. apply dot_path_is_visible; assumption. Qed.
 
-Theorem inside_dot_write_is_visible : forall h params clos a args p,
+Theorem inside_dot_write_is_visible : forall fuel h params clos a args p,
   names_ok p ->
-  verdict_of (run_body is_upper h params (BDotSet p) clos (a :: args))
+  verdict_of (run_body is_upper fuel h params (BDotSet p) clos (a :: args))
     = PkgSpec.spec_path is_upper h (zip_params params (a :: args)) clos p (Some a).
-Proof. intros. unfold run_body, run_body_simple. apply dot_path_is_visible; assumption. Qed.
+Proof. intros. rewrite run_body_simple_eq by discriminate. unfold run_body_simple. apply dot_path_is_visible; assumption. Qed.
 
 (* the head of the path resolves to the member of the package's own scope (whatever its case),
    so the walk starts from the package's own hash / nested package *)
@@ -572,6 +584,74 @@ Proof.
   unfold call_path, Pkg.dot_get_set.
   rewrite (lexical_lookup_frame_irrelevant h frame stack key Hf).
   destruct rest; reflexivity.
+Qed.
+
+(* ---------- assignment whose right-hand side is itself a dot path ---------- *)
+(* {target = source}, (set target source), (= target source): the right-hand side must be readable
+   (a private source is refused and nothing is stored); then the VALUE is assigned under the rule *)
+Theorem assign_from_path_is_visible : forall h target source,
+  names_ok target -> names_ok source ->
+  verdict_of (run_op is_upper h (OpSetFrom target source)) = spec_op is_upper h (OpSetFrom target source).
+Proof.
+  intros h target source Ht Hs.
+  unfold run_op, spec_op.
+  rewrite <- (dot_path_is_visible h [] [0%nat] source None Hs).
+  destruct (dot_get_set h [] [0%nat] source None) as [[h' v]|e] eqn:E.
+  - simpl. apply dot_path_is_visible; assumption.
+  - destruct e; reflexivity.
+Qed.
+
+Theorem assign_from_private_source_stores_nothing : forall h target source e,
+  dot_get_set h [] [0%nat] source None = Err e ->
+  run_op is_upper h (OpSetFrom target source) = Err e.
+Proof. intros h target source e H. unfold run_op. rewrite H. reflexivity. Qed.
+
+(* ---------- calls through dot paths made inside functions (facades) ---------- *)
+Definition body_ok (b : fbody) : Prop :=
+  match b with
+  | BDot p | BDotSet p | BDotCall p _ => names_ok p
+  | _ => True
+  end.
+
+(* every function value a dot path can yield has non-empty path parts in its body *)
+Definition funs_ok (h : heap) : Prop :=
+  forall frame stack p h' fn ps b cl,
+    dot_get_set h frame stack p None = Ok (h', VFun fn ps b cl) -> body_ok b.
+
+Lemma simple_body_is_spec : forall h params body clos args,
+  body_ok body -> (forall p c, body <> BDotCall p c) ->
+  verdict_of (run_body_simple is_upper h params body clos args)
+    = spec_body_simple is_upper h params body clos args.
+Proof.
+  intros h params body clos args Hb Hn.
+  destruct body as [n|n|p|p|p c|n]; unfold run_body_simple, spec_body_simple.
+  - destruct (lexical_lookup h (zip_params params args) clos n) as [[v o]|]; reflexivity.
+  - reflexivity.
+  - apply dot_path_is_visible; exact Hb.
+  - apply dot_path_is_visible; exact Hb.
+  - exfalso. eapply Hn. reflexivity.
+  - reflexivity.
+Qed.
+
+(* the callee of (a.b.F args) written inside a function is the member the path yields under the
+   visibility rule -- whatever the calling function itself is called -- to any nesting depth *)
+Theorem inside_call_is_spec : forall fuel h params body clos args,
+  funs_ok h -> body_ok body ->
+  verdict_of (run_body is_upper fuel h params body clos args)
+    = spec_body is_upper fuel h params body clos args.
+Proof.
+  induction fuel as [|f IH]; intros h params body clos args Hf Hb.
+  - destruct body as [n|n|p|p|p c|n]; try (apply simple_body_is_spec; [exact Hb|discriminate]).
+    reflexivity.
+  - destruct body as [n|n|p|p|p c|n]; try (apply simple_body_is_spec; [exact Hb|discriminate]).
+    cbn [run_body Pkg.run_body spec_body PkgSpec.spec_body].
+    rewrite <- (dot_path_is_visible h (zip_params params args) clos p None Hb).
+    destruct (dot_get_set h (zip_params params args) clos p None) as [[h' v]|e] eqn:E.
+    + simpl verdict_of at 2.
+      destruct v as [| z | fn ps bd cl | x | b' pn' sc']; try (destruct c; reflexivity).
+      destruct (Nat.eqb (length ps) (length c)); [|reflexivity].
+      apply IH; [exact Hf|]. eapply Hf. exact E.
+    + destruct e; reflexivity.
 Qed.
 
 End WithUpper.
@@ -634,3 +714,43 @@ Proof. split; vm_compute; reflexivity. Qed.
 Lemma ex_inside_reads_private :
   run_op ascii_upper demo_heap (OpCall [n_pk; n_Get] []) = Ok (demo_heap, VInt 2).
 Proof. vm_compute. reflexivity. Qed.
+
+(* second concrete world: nil-valued members, a facade with the callee's own name, path-to-path assignment
+   (def pk (package "pk" { (def Pub 1); (def priv 2); (def Nn nil); (def nn nil);
+       (def in (package "in" { (defn Scale [x] x) })); (defn Scale [x] (in.Scale 7)) })) *)
+Definition n_Nn : name := [78; 110].
+Definition n_nn : name := [110; 110].
+Definition n_Scale : name := [83; 99; 97; 108; 101].
+Definition n_x : name := [120].
+Definition demo2_defs : list (name * decl) :=
+  [ (n_pk, DPkg n_pk [ (n_Pub, DInt 1); (n_priv, DInt 2); (n_Nn, DNil); (n_nn, DNil);
+                       (n_inner, DPkg n_inner [ (n_Scale, DFun [n_x] (BGet n_x)) ]);
+                       (n_Scale, DFun [n_x] (BDotCall [n_inner; n_Scale] [7])) ]) ].
+Definition demo2_heap : heap :=
+  match build_world ascii_upper heap0 demo2_defs with Ok h => h | Err _ => [] end.
+
+Lemma ex_nil_member_obeys_the_rule :
+  run_op ascii_upper demo2_heap (OpGet [n_pk; n_nn]) = Err (EPriv n_nn n_pk) /\
+  run_op ascii_upper demo2_heap (OpSet [n_pk; n_nn] 5) = Err (EPriv n_nn n_pk) /\
+  run_op ascii_upper demo2_heap (OpGet [n_pk; n_Nn]) = Ok (demo2_heap, VNull) /\
+  match run_op ascii_upper demo2_heap (OpSet [n_pk; n_Nn] 5) with
+  | Ok (h', _) => run_op ascii_upper h' (OpGet [n_pk; n_Nn]) = Ok (h', VInt 5)
+  | _ => False
+  end.
+Proof. repeat split; vm_compute; reflexivity. Qed.
+
+Lemma ex_assign_from_path :
+  run_op ascii_upper demo2_heap (OpSetFrom [n_pk; n_Pub] [n_pk; n_priv]) = Err (EPriv n_priv n_pk) /\
+  match run_op ascii_upper demo2_heap (OpSetFrom [n_pk; n_Nn] [n_pk; n_Pub]) with
+  | Ok (h', VInt 1) => run_op ascii_upper h' (OpGet [n_pk; n_Nn]) = Ok (h', VInt 1)
+  | _ => False
+  end.
+Proof. split; vm_compute; reflexivity. Qed.
+
+Lemma ex_facade_with_the_callees_name :
+  run_op ascii_upper demo2_heap (OpCall [n_pk; n_Scale] [3]) = Ok (demo2_heap, VInt 7) /\
+  match run_op ascii_upper demo2_heap (OpCallVia n_Scale n_x n_pk [n_pk; n_Scale] [3]) with
+  | Ok (_, VInt 7) => True
+  | _ => False
+  end.
+Proof. split; vm_compute; [reflexivity|exact I]. Qed.
